@@ -80,11 +80,17 @@ Subscribe(c, fs, qs, keep) ==
        /\ last' = [a |-> "sub", c |-> c, fs |-> fs, qs |-> qs, ok |-> ok]
     /\ n' = n + 1
 
-(* UNSUBSCRIBE of well-formed filters; filters never subscribed are no-ops *)
-Unsubscribe(c, fs) ==
-    /\ \A i \in 1..Len(fs) : ValidFilter(fs[i])
-    /\ subs' = {s \in subs : ~(s.c = c /\ \E i \in 1..Len(fs) : fs[i] = s.f)}
-    /\ last' = [a |-> "unsub", c |-> c, fs |-> fs]
+(* UNSUBSCRIBE by c; filters never subscribed are no-ops.  All filters well-formed: none of them is   *)
+(* live afterwards.  Otherwise the packet contains a malformed filter (ok = FALSE): the property only  *)
+(* says that malformed filters are rejected, so which of the packet's *well-formed* filters were        *)
+(* removed is left open - any subset `rem` of them - but whatever was decided is what every later         *)
+(* lookup, on every topic, must show.                                                                      *)
+Unsubscribe(c, fs, rem) ==
+    /\ LET ok == ValidIdx(fs) = 1..Len(fs) IN
+       /\ rem \subseteq ValidIdx(fs)
+       /\ ok => rem = 1..Len(fs)
+       /\ subs' = {s \in subs : ~(s.c = c /\ \E i \in rem : fs[i] = s.f)}
+       /\ last' = [a |-> "unsub", c |-> c, fs |-> fs, ok |-> ok]
     /\ n' = n + 1
 
 (* the client's session ends (a clean session with its connection; a persistent one when it is        *)
@@ -116,7 +122,7 @@ Next ==
     /\ \E c \in Clients :
        \/ \E fs \in FilterSeqs : \E qs \in [1..Len(fs) -> QoS] : \E keep \in SUBSET (1..Len(fs)) :
               Subscribe(c, fs, qs, keep)
-       \/ \E fs \in FilterSeqs : Unsubscribe(c, fs)
+       \/ \E fs \in FilterSeqs : \E rem \in SUBSET (1..Len(fs)) : Unsubscribe(c, fs, rem)
        \/ Disconnect(c)
        \/ Takeover(c)
        \/ Resume(c)
@@ -157,6 +163,7 @@ CuratedFilters == GoodFilters \cup BadFilters
 CuratedPairs == { << <<LA, LH>>, <<LA, LB>> >>,  << <<LP>>, <<LA>> >>,  << <<LA, LB>>, <<LA, LB>> >>,
                   << <<LA>>, << <<"a", "+">> >> >>,          \* well-formed first, then malformed
                   << <<LA, LH, LB>>, <<LP, LP>> >> }         \* malformed first
+SmallPairs == { << <<LA>>, << <<"a", "+">> >> >>,  << << <<"a", "+">> >>, <<LA, LB>> >> }     \* malformed last / first
 SmallFilters == { <<LA>>, <<LA, LB>>, <<LA, LH>>, <<LP>>, <<LA, LP>>, <<LH>>, << <<"a", "+">> >> }
 CuratedTopics == { <<LA>>, <<LA, LE>>, <<LA, LB>>, <<LA, LB, LC>>, <<LB>>, <<LE, LE>>, <<LE, LE, LE>>,
                    <<LA, LE, LB>>, <<LE, LA>>, <<LB, LA>> }
